@@ -11,17 +11,23 @@ use super::ghost::*;
 pub fn rec_drop_fn() -> DropFn { rec_drop }
 pub fn rec_clone_fn() -> CloneFn { rec_clone }
 
-/// A symbolic `usize` that is *structurally* at most 21 bits wide (<= 2*CAPMAX-1): the upper bits
-/// are constant zero, which keeps products with the element size narrow for the SAT back end.
+/// Domain of the symbolic vector states: `len <= cap <= 2^(DOM_BITS-1)`. 21 (cap <= 2^20) unless a harness
+/// instance lowers it with `set_domain` (then it is a *bounded* stand-in and registered as such).
+pub static mut DOM_BITS: u32 = 21;
+pub fn set_domain(bits: u32) { unsafe { DOM_BITS = bits; } }
+fn dom_bits() -> u32 { unsafe { DOM_BITS } }
+
+/// A symbolic `usize` that is *structurally* at most DOM_BITS wide: the upper bits are constant zero,
+/// which keeps products with the element size narrow for the SAT back end.
 pub fn any_narrow() -> usize {
-    (kani::any::<u32>() & 0x1F_FFFF) as usize
+    (kani::any::<u32>() & ((1u32 << dom_bits()) - 1)) as usize
 }
 
-/// symbolic (len, cap) with len <= cap <= CAPMAX
+/// symbolic (len, cap) with len <= cap <= 2^(DOM_BITS-1)  (= CAPMAX for the default domain)
 pub fn sym_state() -> (usize, usize) {
     let len = any_narrow();
     let cap = any_narrow();
-    kani::assume(len <= cap && cap <= CAPMAX);
+    kani::assume(len <= cap && cap <= (1usize << (dom_bits() - 1)));
     (len, cap)
 }
 
